@@ -201,6 +201,20 @@ theorem clamp01_idem (v : β) : Groups.clamp01 (Groups.clamp01 v) = Groups.clamp
   have h0 : ¬ c < 0 := not_lt.mpr h.1
   simp [h1, h0]
 
+/-- C05 (out-of-range opacities): what `_inherit_multiply`, `normalize_opacity` and `_stroke` now compute — the product of the
+    clamped factors — is a legal opacity again, and equals the plain product whenever both factors were legal to begin with -/
+theorem clamped_product_range (a b : β) :
+    0 ≤ Groups.clamp01 a * Groups.clamp01 b ∧ Groups.clamp01 a * Groups.clamp01 b ≤ 1 := by
+  obtain ⟨ha0, ha1⟩ := clamp01_range a
+  obtain ⟨hb0, hb1⟩ := clamp01_range b
+  refine ⟨mul_nonneg ha0 hb0, ?_⟩
+  calc Groups.clamp01 a * Groups.clamp01 b ≤ 1 * 1 := mul_le_mul ha1 hb1 hb0 zero_le_one
+    _ = 1 := by ring
+
+theorem clamp01_of_legal (v : β) (h0 : 0 ≤ v) (h1 : v ≤ 1) : Groups.clamp01 v = v := by
+  unfold Groups.clamp01
+  simp [not_lt.mpr h1, not_lt.mpr h0]
+
 end
 
 end PicoSVG.Props.C05
